@@ -75,11 +75,16 @@ class RangelistModel(object):
         rng_i=0
         while rng_i < len(self.range_l):
             for r in other.range_l:
+                n_ranges = len(self.range_l)
                 rng_i = self._intersect(
                     self.range_l,
                     rng_i,
                     self.range_l[rng_i],
                     r)
+                if len(self.range_l) < n_ranges:
+                    # The target range was removed entirely. Move
+                    # on to the range that took its place
+                    break
             rng_i += 1
     
     def _intersect(self,
